@@ -76,23 +76,23 @@ def programs : List (String × Option Chan × List Op) := [
   -- clients (cached.rs)
   ("put / put_with_weight / put_with_ttl / put_with_weight_and_ttl",   -- cached.rs:131-243: is_present, then send
     none, [acq storeShard, rel storeShard, send cmd]),
-  ("put_or_update (absent key)",                                       -- cached.rs:264-293: store.update (get_mut), send
+  ("put_or_update (absent key)",                                       -- cached.rs:264-295: store.update (get_mut), send
     none, [acq storeShard, rel storeShard, send cmd]),
-  ("put_or_update (present key)",                                      -- cached.rs:295-318: update in place, weight_of, ttl ops, send
+  ("put_or_update (present key)",                                      -- cached.rs:297-322: update in place, weight_of, ttl ops, send
     none, [acq storeShard, rel storeShard, acq kwShard, rel kwShard, acq ttlShard, rel ttlShard, acq ttlShard, rel ttlShard, send cmd]),
-  ("delete",                                                           -- cached.rs:343-348: mark_deleted (get_mut), send
+  ("delete",                                                           -- cached.rs:347-354: mark_deleted (get_mut), send
     none, [acq storeShard, rel storeShard, send cmd]),
-  ("get / map_get / multi_get / iterators (per key)",                  -- cached.rs:514-522, pool.rs:69-73, 46-53: store.get, pool.add -> accept (try send)
+  ("get / map_get / multi_get / iterators (per key)",                  -- cached.rs:537-545, pool.rs:69-77, 46-53: store.get, pool.add -> accept (try send)
     none, [acq storeShard, rel storeShard, acq poolBuf, trySend buf, rel poolBuf]),
-  ("get_ref / map_get_ref (the store guard outlives mark_key_accessed)", -- cached.rs:373-381
+  ("get_ref / map_get_ref (the store guard outlives mark_key_accessed)", -- cached.rs:379-387
     none, [acq storeShard, acq poolBuf, trySend buf, rel poolBuf, rel storeShard]),
-  ("total_weight_used",                                                -- cache_weight.rs:201
+  ("total_weight_used",                                                -- cache_weight.rs:213-217
     none, [acq wu, rel wu]),
-  ("shutdown",                                                         -- cached.rs:457-468, admission_policy.rs:153-162, cache_weight.rs:261-265, expiration/mod.rs:65-69
+  ("shutdown",                                                         -- cached.rs:463-484, admission_policy.rs:171-188, cache_weight.rs:315-323, expiration/mod.rs:73-77
     none, [send cmd, send buf, acq storeShard, rel storeShard, acq kwShard, rel kwShard, acq wu, rel wu, acq af, rel af, acq ttlShard, rel ttlShard]),
-  ("poll of an acknowledgement",                                       -- acknowledgement.rs:113-129
+  ("poll of an acknowledgement",                                       -- acknowledgement.rs:120-150
     none, [acq ackWaker, acq ackStatus, rel ackStatus, rel ackWaker]),
-  -- command worker (command_executor.rs:111-160): one loop body per command kind, each starting at recv
+  -- command worker (command_executor.rs:111-172): one loop body per command kind, each starting at recv
   ("worker: Put / PutWithTTL",                                         -- is_present; maybe_add (space check, add | create_space); store.put; ttl put; done
     some cmd, [recv cmd, acq storeShard, rel storeShard, acq wu, rel wu,
                acq af, rel af,                                                   -- estimate of the incoming key
@@ -102,18 +102,18 @@ def programs : List (String × Option Chan × List Op) := [
                acq kwShard, rel kwShard, acq wu, rel wu,                         -- add: insert, then total
                acq storeShard, rel storeShard, acq ttlShard, rel ttlShard,       -- store.put(_with_ttl), ttl_ticker.put
                acq ackStatus, rel ackStatus, acq ackWaker, rel ackWaker]),       -- done()
-  ("worker: UpdateWeight",                                             -- cache_weight.rs:218-234: shard guard, then WU inside it
+  ("worker: UpdateWeight",                                             -- cache_weight.rs:238-256: shard guard, then WU inside it
     some cmd, [recv cmd, acq kwShard, acq wu, rel wu, rel kwShard, acq ackStatus, rel ackStatus, acq ackWaker, rel ackWaker]),
-  ("worker: Delete",                                                   -- command_executor.rs:227-237
+  ("worker: Delete",                                                   -- command_executor.rs:247-257
     some cmd, [recv cmd, acq storeShard, rel storeShard, acq kwShard, rel kwShard, acq wu, rel wu, acq ttlShard, rel ttlShard,
                acq ackStatus, rel ackStatus, acq ackWaker, rel ackWaker]),
-  ("worker: Shutdown and drain",                                       -- command_executor.rs:148-156
+  ("worker: Shutdown and drain",                                       -- command_executor.rs:154-166
     some cmd, [recv cmd, acq ackStatus, rel ackStatus, acq ackWaker, rel ackWaker]),
-  -- sweeper (expiration/mod.rs:96-114): shard write lock across the evictions
+  -- sweeper (expiration/mod.rs:106-136): shard write lock across the evictions
   ("sweeper tick",
     none, [acq ttlShard, acq kwShard, acq storeShard, rel storeShard, rel kwShard,   -- remove_if: the condition reads the store under the key id's shard guard
            acq wu, acq storeShard, rel storeShard, rel wu, rel ttlShard]),
-  -- access-count consumer (admission_policy.rs:80-96)
+  -- access-count consumer (admission_policy.rs:84-106)
   ("consumer: Full batch",
     some buf, [recv buf, acq af, rel af])
 ]
